@@ -7,6 +7,7 @@ import (
 	"github.com/btcsuite/btcd/btcutil"
 	"github.com/elementsproject/peerswap/swap"
 	"github.com/elementsproject/peerswap/txwatcher"
+	"github.com/elementsproject/peerswap/verifsim/rt"
 )
 
 // ---------------------------------------------------------------------------
@@ -211,11 +212,46 @@ func (r *rpcStub) GetBlockHeight() (uint64, error) {
 			return 0, errors.New("rpc: connection refused")
 		case "stale":
 			if h := r.c.Height(); h > r.c.Base {
+				r.n.served(r.c.Name, h-1)
 				return uint64(h - 1), nil
 			}
 		}
 	}
+	r.n.served(r.c.Name, r.c.Height())
 	return uint64(r.c.Height()), nil
+}
+
+// served records the last chain height a node's back-end answered with.
+func (n *Node) served(chain string, h uint32) {
+	n.mu.Lock()
+	if n.LastHeight == nil {
+		n.LastHeight = map[string]uint32{}
+	}
+	n.LastHeight[chain] = h
+	if t := rt.Self(); t != nil {
+		if n.heightByTask == nil {
+			n.heightByTask = map[string]uint32{}
+		}
+		n.heightByTask[t.ID+"/"+chain] = h
+	}
+	n.mu.Unlock()
+}
+
+// ServedHeightToTask returns the last height of chain served to a given task
+// of the node (the knowledge that task acted on).
+func (n *Node) ServedHeightToTask(task, chain string) (uint32, bool) {
+	n.mu.Lock()
+	defer n.mu.Unlock()
+	h, ok := n.heightByTask[task+"/"+chain]
+	return h, ok
+}
+
+// ServedHeight returns the last height the node was told for chain.
+func (n *Node) ServedHeight(chain string) (uint32, bool) {
+	n.mu.Lock()
+	defer n.mu.Unlock()
+	h, ok := n.LastHeight[chain]
+	return h, ok
 }
 
 func (r *rpcStub) GetTxOut(txid string, vout uint32) (*txwatcher.TxOutResp, error) {
